@@ -39,7 +39,9 @@ RULE = ("Base messages are produced in simulation by fixed scenarios: v1/v2c res
         "the outcome is a result or an exception (RecursionError included); afterwards, with the fault gone, the same "
         "client's next request (the listener's next trap) behaves exactly as in the unmutated run, or as in the run in which "
         "the targeted datagram is lost (a refused datagram conveys nothing - e.g. a corrupted notInTimeWindow Report cannot "
-        "resynchronise the clock). Non-trivial: the mutated "
+        "resynchronise the clock). Long-lived scenarios: one client (one listener) performs 60 + 240 exchanges one simulated "
+        "second apart with a seeded third of the incoming datagrams corrupted; the memory still traced after the last 240 may "
+        "exceed the level after the warm-up by at most 24 KiB (nothing may be retained per datagram). Non-trivial: the mutated "
         "datagram differs from the original and reached the client; distinct = distinct (scenario, mutation).")
 ASSUMPTIONS = [
     "time is decided as counted work (function entries, calls, loop jumps), not seconds; a hang inside one C call would only "
@@ -48,10 +50,15 @@ ASSUMPTIONS = [
     "client: there the follow-up request is judged only if the client raised for that datagram (no further request was "
     "sent in the same call), as the statement says",
 ]
-PROBES = ["every_later_datagram_mutated", "flip", "trunc", "hsub", "hsub_multi", "eoc", "random", "random_max_size", "nest", "post_auth", "discovery_reply",
+PROBES = ["long_lived_retention_measured", "every_later_datagram_mutated", "flip", "trunc", "hsub", "hsub_multi", "eoc", "random", "random_max_size", "nest", "post_auth", "discovery_reply",
           "report", "trap", "raised", "accepted_mutated", "recursion_error", "indefinite_no_eoc_reached", "timeout_path",
           "memory_measured", "big_wellformed", "empty_or_single_binding_list", "big_over_50k_octets", "huge_engine_boots_or_time"]
 shrink_lists = [("mutations",)]
+#: long-lived scenarios: one client (one listener) used for LEAK_WARM + LEAK_POLLS exchanges one simulated second apart,
+#: a seeded third of the datagrams corrupted; memory still traced after the last LEAK_POLLS exchanges may exceed what was
+#: traced after the warm-up by at most LEAK_ALLOW octets (the harness drops its own per-exchange records in between)
+LEAK_SCENARIOS = ["v2c-get", "v1-get", "v2c-walk-mid", "v3-noauth-get", "v3-auth-get", "v3-priv-bulkget", "trap-v2c"]
+LEAK_WARM, LEAK_POLLS, LEAK_ALLOW = 60, 240, 24 << 10
 DICT = [0x00, 0x01, 0x7F, 0x80, 0x81, 0x82, 0x83, 0x84, 0x88, 0xFF, 0x04, 0x30, 0xA2, 0x02, 0x43, 0x44]
 
 MIB = {(1, 3, 6, 1, 2, 1, 1, 1, 0): ("str", b"descr" * 4), (1, 3, 6, 1, 2, 1, 1, 2, 0): ("oid", (1, 3, 6, 1, 4, 1, 8072)),
@@ -355,6 +362,98 @@ class Env:
         self._settle()
         return out
 
+    def run_leak(self, seedv: int, warm: int, polls: int) -> dict:
+        """One long-lived client (or listener): *warm* exchanges, then *polls* more; returns the traced-memory growth."""
+        import gc
+        from puresnmp_plugins.priv import verifstream
+        w = self.w
+        trap = self.special == "trap"
+        agent = None
+        client = None
+        if not trap:
+            agent = agent_for(self.acred, dict(MIB))
+            w.net.agents[("10.0.0.2", 161)] = agent
+            client = w.client(self.ccred, timeout=1, retries=1)
+        count = {"n": 0, "corrupted": 0, "raised": 0, "known_spin": 0}
+        priv_on_wire = bool(self.ccred.get("priv")) if self.ccred else False
+
+        def rewriter(direction: str, idx: int, data: bytes) -> Optional[bytes]:
+            if direction != "a2c":
+                return None
+            count["n"] += 1
+            k = keyed(seedv, "leak", count["n"])
+            if k % 3 == 0 and len(data) > 4:
+                count["corrupted"] += 1
+                # (with privacy only the clear-text part is touched: a flipped ciphertext bit decrypts to arbitrary octets,
+                # which is the single-case families' business and can run into the recorded x690 finding)
+                bit = (k >> 8) % (8 * (min(len(data), 60) if priv_on_wire else len(data)))
+                b = bytearray(data)
+                b[bit // 8] ^= 1 << (bit % 8)
+                if b[bit // 8] == 0x80:
+                    b[bit // 8] = 0x81      # stay clear of the recorded x690 finding (indefinite length without EOC)
+                return bytes(b)
+            return None
+
+        def prune() -> None:
+            w.net.all_sockets[:] = [t for t in w.net.all_sockets if not t.is_closing()]
+            w.net.events.clear()
+            w.net.fired.clear()
+            w.loop.exceptions.clear()
+            if agent is not None:
+                agent.requests.clear()
+            for r in w.recorders:
+                r.calls.clear()
+            verifstream.CALLS.clear()
+            del self.trap_got[:]
+
+        async def one(j: int) -> None:
+            if trap:
+                vbs = TRAP_VBS[:3] + [((1, 3, 6, 1, 4, 1, 8072, 2, 3, 2, 2), ("str", b"payload-%d" % keyed(seedv, "p", count["n"], j)))]
+                raw = S.enc_community_msg(1, b"public", S.enc_pdu(S.mkpdu(S.PDU_TRAP2, 77 + j, vbs)))
+                out = rewriter("a2c", 0, raw) or raw
+                w.net.inject(TRAP_SRC, TRAP_LISTEN, out, delay_ticks=1)
+            else:
+                try:
+                    await scen.do_op(client, self.op)
+                except Exception:  # noqa: BLE001
+                    count["raised"] += 1
+            await asyncio.sleep(1.0)
+            prune()
+
+        def exchanges(k: int) -> Tuple[str, Any, int]:
+            """every exchange under its own work budget, like the single cases"""
+            total = 0
+            budget = A_EVENTS[self.op["op"] if self.op else "trap"] + B_EVENTS * 400
+            for j in range(k):
+                h0 = self.indef_hits
+                st, val, ev, _ = self.metered(one(j), budget)
+                total += ev
+                if st == "budget" and self.indef_hits > h0:
+                    # the recorded x690 finding (a flipped length octet made the parser read an existing 0x80 as a length):
+                    # counted, reported through the single-case families; the long run goes on
+                    count["known_spin"] += 1
+                    prune()
+                    continue
+                if st != "ok":
+                    return st, val, total
+            return "ok", None, total
+        if not trap:
+            w.net.rewriter = rewriter
+        hits0 = self.indef_hits
+        tracemalloc.start(1)
+        try:
+            st1, val1, ev1 = exchanges(warm)
+            gc.collect()
+            m1 = tracemalloc.get_traced_memory()[0]
+            st2, val2, ev2 = ("skipped", None, 0) if st1 != "ok" else exchanges(polls)
+            gc.collect()
+            m2 = tracemalloc.get_traced_memory()[0]
+        finally:
+            tracemalloc.stop()
+            w.net.rewriter = None
+        return {"status": st1 if st1 != "ok" else st2, "exc": None if (st1, st2) == ("ok", "ok") else repr(val1 if st1 != "ok" else val2)[:200],
+                "growth": m2 - m1, "events": ev1 + ev2, "indef": self.indef_hits > hits0, **count}
+
     def _settle(self) -> None:
         async def idle() -> None:
             for _ in range(3):
@@ -429,6 +528,8 @@ def _segments(tier: str) -> List[Tuple[str, str, int]]:
             segs.append((name, "tiny", 6))
         if name.startswith("v3") and SCENARIOS[name][4] == "pre":
             segs.append((name, "secint", 12 if tier == "quick" else 36))
+    for name in LEAK_SCENARIOS:
+        segs.append((name, "leak", 1))
     return segs
 
 
@@ -487,6 +588,8 @@ def plan_for(tier: str, seed: int, i: int) -> dict:
         elif fam == "secint":
             sizes = [5, 8, 11, 16, 4, 9, 33, 64, 127, 126, 3, 200]
             muts.append(["secint", j % 3, sizes[(j // 3) % len(sizes)]])
+        elif fam == "leak":
+            muts.append(["leak", LEAK_WARM, LEAK_POLLS, rng_for(seed, ID, tier + ":" + name + ":leak", j).getrandbits(40)])
         elif fam == "tiny":
             # well-formed but degenerate: a response / an error response with no binding at all, or with a single one
             muts.append(["big", (0, 2, 3)[j % 3], j // 3])
@@ -522,7 +625,51 @@ def shortcut(plan: dict, out: dict) -> Optional[dict]:
     return dict(plan, mutations=[list(m)])
 
 
+def _execute_leak(plan: dict) -> dict:
+    name = plan["scenario"]
+    _, warm, polls, seedv = plan["mutations"][0]
+    env = Env(name, False)
+    try:
+        res = env.run_leak(seedv, warm, polls)
+        digest = hashlib.sha256(repr((env.w.net.digest(), res["n"], res["corrupted"], res["raised"], res["status"])).encode()).hexdigest()
+        counters = dict(env.w.net.counters)
+        sim_s = env.w.loop.time()
+    finally:
+        env.close()
+    violation = None
+    triggers: List[str] = []
+    desc = "scenario %s: one long-lived %s, %d+%d exchanges, %d datagrams corrupted" % (
+        name, "listener" if SCENARIOS[name][5] == "trap" else "client", warm, polls, res["corrupted"])
+    if res["status"] != "ok":
+        violation = {"clause": {"budget": "cpu-budget", "loopcap": "event-loop-spin"}.get(res["status"], "long-run-raised"),
+                     "detail": "%s: ended with %s %s" % (desc, res["status"], res["exc"]), "mutation": plan["mutations"][0]}
+        if res["indef"]:
+            triggers.append("C20-x690-indefinite-length-without-eoc")
+    elif res["growth"] > LEAK_ALLOW:
+        violation = {"clause": "memory-retained", "detail": "%s: %d octets more are retained after the last %d exchanges than "
+                     "after the warm-up (allowance %d): memory grows with the number of datagrams processed" % (
+                         desc, res["growth"], polls, LEAK_ALLOW), "mutation": plan["mutations"][0]}
+    probes = {k: 0 for k in PROBES}
+    probes["long_lived_retention_measured"] = 1
+    probes["trap"] = int(SCENARIOS[name][5] == "trap")
+    probes["raised"] = int(res["raised"] > 0)
+    for k, v in probes.items():
+        counters["probe_" + k] = v
+    counters["fault_leak_corrupted_datagrams"] = res["corrupted"]
+    counters["leak_exchanges_cut_short_by_known_x690_spin"] = res["known_spin"]
+    return {
+        "violation": violation, "digest": digest, "triggers": triggers, "counters": counters,
+        "shape": "%s|leak" % name, "nontrivial": res["corrupted"] > 0, "n_evals": warm + polls, "n_distinct": res["corrupted"],
+        "sim_s": sim_s, "exchanges": warm + polls,
+        "sets": {"retained_growth_octets_max": [res["growth"]]},
+        "summary": "%s leak: growth %d octets over %d exchanges (%d corrupted, %d raised)" % (
+            name, res["growth"], polls, res["corrupted"], res["raised"]),
+    }
+
+
 def execute(plan: dict) -> dict:
+    if plan["family"] == "leak":
+        return _execute_leak(plan)
     name = plan["scenario"]
     base = baseline(name)
     lost = baseline(name, "drop") if SCENARIOS[name][5] != "trap" else base
